@@ -91,6 +91,11 @@ func init() {
 	reg(&checkSpec{ID: "C06", Assumptions: append([]string{"A-db: database/sql + SQLite contract model: commit is atomic and durable; an uncommitted transaction leaves no trace after a crash; real SIGKILL / file system / cgo driver are outside the claim"}, commonAssumptions...), Runs: []runSpec{
 		{Harness: pkgWitness + ".VerifCrash", Quick: p("logs", 2, "signers", 1, "maxproof", 1, "boundaries", 12), Thorough: p("logs", 3, "signers", 2, "maxproof", 2, "boundaries", 14), Covers: []string{"crash/killed", "crash/killed-after-signing", "crash/completed", "crash/killed-after-commit", "crash/killed-before-commit"}},
 	}})
+	concCovers := []string{"conc/some-accepted", "conc/all-accepted-same-log"}
+	reg(&checkSpec{ID: "C05", Assumptions: append([]string{"yield points: every sync.(RW)Mutex operation and every database/sql operation; code between yield points is atomic (lock discipline)", "A-db with a single pooled connection (cmd/omniwitness sets MaxOpenConns(1))"}, commonAssumptions...), Runs: []runSpec{
+		{Harness: pkgWitness + ".VerifConcurrent", Quick: p("threads", 2, "logs", 1, "signers", 1, "maxproof", 1, "store", 0), Thorough: p("threads", 3, "logs", 2, "signers", 1, "maxproof", 1, "store", 0), Covers: append([]string{"conc/storage-conflict"}, concCovers...)},
+		{Harness: pkgWitness + ".VerifConcurrent", Quick: p("threads", 2, "logs", 1, "signers", 1, "maxproof", 1, "store", 1), Thorough: p("threads", 3, "logs", 2, "signers", 1, "maxproof", 1, "store", 1), Covers: concCovers},
+	}})
 	reg(&checkSpec{ID: "vc", Runs: vcRuns(), Assumptions: commonAssumptions})
 	reg(&checkSpec{ID: "litmus", Runs: []runSpec{
 		{Harness: pkgLitmus + ".Arith", Covers: []string{"L/cover-gt", "L/neg-int"}},
